@@ -334,7 +334,8 @@ def run(ctx):
     real_cases = realstore(ctx)
     msgs, pts = patterns(ctx, sd, rnd)
     d1, d2 = codec(ctx, msgs, pts)
-    ctx.cov["exhaustive"] = exhaustive
+    # every generated connection was replayed except the sampled-out Max-1 ones: not exhaustive when any was left out
+    ctx.cov["exhaustive"] = exhaustive and tot.get("skipped_maxm1_budget", 0) == 0 and tot.get("skipped_crash_class", 0) == 0
     evaluations = d1.get("patterns", 0) + d2.get("points", 0)
     extra = {
         "connections_generated": len(behs), "connections_replayed": tot.get("behaviours", 0),
